@@ -9,6 +9,18 @@ VAL = "2020"     # valid for every base datatype (DT year, TM HHMM, DTM year, NM
 EC = [124, 94, 38, 126, 92, 0]
 
 
+def _first_leaf_withdrawn(v, dt):
+    """a plain text assigned to an element of this complex datatype lands in its first component (subcomponent): is that
+    one withdrawn (cardinality 0..0)?  STRICT then refuses the assignment"""
+    comps = T.dt_rows(v, dt) or []
+    if not comps:
+        return False
+    c = comps[0]
+    if c.get("max") == 0:
+        return True
+    return bool(c["subs"]) and c["subs"][0].get("max") == 0
+
+
 def _cases_for_version(args):
     v, tier, seed = args
     rnd = random.Random("%s-%s" % (seed, v))
@@ -26,8 +38,8 @@ def _cases_for_version(args):
             if r["name"] in ("MSH_1", "MSH_2"):   # the delimiters themselves: C07's subject
                 continue
             cases.append({"kind": "field", "v": v, "seg": seg, "i": r["i"], "j": 1, "s": 1, "name": r["name"],
-                          "path": [r["name"]]})
-            if r["kind"] == "complex" and r["dt"] not in hosts and seg != "MSH":
+                          "path": [r["name"]], "wd": r["max"] == 0 or (r["kind"] == "complex" and _first_leaf_withdrawn(v, r["dt"]))})
+            if r["kind"] == "complex" and r["dt"] not in hosts and seg != "MSH" and r["max"] != 0:
                 hosts[r["dt"]] = (seg, r["name"], r["i"])
         last = rows[-1] if rows else None
         if last is not None and last["kind"] == "varies":
@@ -44,16 +56,16 @@ def _cases_for_version(args):
         rows = T.seg_rows(v, seg)
         if not rows or seg == "MSH":
             continue
-        idx = [r["i"] for r in rows if r["max"] != 0 and not (r["kind"] != "base" and False)]
-        idx = [r["i"] for r in rows if not (v in ("2.7", "2.8.2") and r["name"] == "PV1_52") and not (v == "2.1" and seg == "RX1")
-               and not (v == "2.1" and r["name"] == "ORO_3")]     # rows with a listed table defect are probed one by one only
+        idx = [r["i"] for r in rows]
+        wdidx = [r["i"] for r in rows if r["max"] == 0 or (r["kind"] == "complex" and _first_leaf_withdrawn(v, r["dt"]))]
+        # (withdrawn positions, or a first component that is: STRICT refuses them)
         if not idx:
             continue
         order = list(idx)
-        cases.append({"kind": "full", "v": v, "seg": seg, "idx": idx, "order": order})
+        cases.append({"kind": "full", "v": v, "seg": seg, "idx": idx, "order": order, "wdidx": wdidx})
         sh = list(idx)
         rnd.shuffle(sh)
-        cases.append({"kind": "full", "v": v, "seg": seg, "idx": idx, "order": sh})
+        cases.append({"kind": "full", "v": v, "seg": seg, "idx": idx, "order": sh, "wdidx": wdidx})
         if rows[-1]["kind"] == "varies":
             last = rows[-1]["i"]
             for extra in ([last + 1, last + 8], [last + 9, last + 10, last + 11], [last + 2, last + 100], [last + 1, last + 2, last + 3]):
@@ -83,11 +95,12 @@ def _cases_for_version(args):
             host = {"seg": "ZZZ", "fname": "ZZZ_3", "i": 3, "zdt": dt}
         for r in rows:
             cases.append({"kind": "comp", "v": v, "seg": host["seg"], "i": host["i"], "j": r["j"], "s": 1,
-                          "dt": dt, "zdt": host["zdt"], "name": host["fname"], "path": [host["fname"], r["name"]]})
+                          "dt": dt, "zdt": host["zdt"], "name": host["fname"], "path": [host["fname"], r["name"]],
+                          "wd": r.get("max") == 0 or (bool(r["subs"]) and r["subs"][0].get("max") == 0)})
             for sr in r["subs"]:
                 cases.append({"kind": "sub", "v": v, "seg": host["seg"], "i": host["i"], "j": r["j"], "s": sr["k"],
                               "dt": dt, "zdt": host["zdt"], "name": host["fname"],
-                              "path": [host["fname"], r["name"], sr["name"]]})
+                              "path": [host["fname"], r["name"], sr["name"]], "wd": r.get("max") == 0 or sr.get("max") == 0})
     return cases
 
 
@@ -119,11 +132,13 @@ def observe(case, level=None):
         enc = seg.to_er7()
         e["enc"] = cps(enc)
         stage = "parse"
+        # (a Z field re-parses as ST whatever datatype it was given: its components are read back at TOLERANT level)
+        plvl = VL.TOLERANT if case.get("zdt") else lvl
         if case.get("route") == "value":
-            p = Segment(case["seg"], version=case["v"], validation_level=lvl)
+            p = Segment(case["seg"], version=case["v"], validation_level=plvl)
             p.value = enc
         else:
-            p = parse_segment(enc, version=case["v"], validation_level=lvl)
+            p = parse_segment(enc, version=case["v"], validation_level=plvl)
         e["pnames"] = [c.name if c.name is not None else "?" for c in p.children if c.to_er7() != ""]
         stage = "read"
         if case.get("zdt"):
@@ -175,6 +190,17 @@ def _observe_chunk(args):
     cases, level = args
     out = []
     for n, c in enumerate(cases):
+        if level == "S":
+            # a withdrawn position (cardinality 0..0) is rightly refused under STRICT: the position law is about the
+            # positions the level lets one use
+            if c.get("wd"):
+                continue
+            if c["kind"] == "full" and c.get("wdidx"):
+                c = dict(c)
+                c["idx"] = [i for i in c["idx"] if i not in c["wdidx"]]
+                c["order"] = [i for i in c["order"] if i not in c["wdidx"]]
+                if not c["idx"]:
+                    continue
         out.append(observe_full(c, level) if c["kind"] == "full" else observe(c, level))
         # the second way of reading a segment's text: Segment(name).value = text (every MSH case, every seventh other)
         if c["kind"] != "full" and (c["seg"] == "MSH" or n % 7 == 0):
